@@ -176,56 +176,75 @@ pub fn run(args: &[String]) {
         if !slice.mine(unit) {
             continue;
         }
-        let mut model = BTreeSet::new();
-        for &t in &set {
-            model.extend(closure_of(&uni, t));
-        }
-        let expected = expected_tree(&uni, &singles, &model, "bindings/");
-        let mut outcomes: BTreeSet<String> = BTreeSet::new();
-        for perm in permutations(k) {
-            for rev in [false, true] {
-                hooks::set_visit_order(Some(Arc::new(move |n| {
-                    let mut v: Vec<usize> = (0..n).collect();
-                    if rev {
-                        v.reverse();
+        // every assignment of entry points to the roots: bit j set = `export()` (the type alone),
+        // clear = `export_all()`; the outcome may depend on that assignment, never on the order
+        for mask in 0..(1usize << k) {
+            let mut model = BTreeSet::new();
+            for (j, &t) in set.iter().enumerate() {
+                if mask >> j & 1 == 1 {
+                    let name = (uni[t].info.ident)();
+                    model.insert(uni.iter().position(|u| (u.info.ident)() == name).unwrap());
+                } else {
+                    model.extend(closure_of(&uni, t));
+                }
+            }
+            let expected = expected_tree(&uni, &singles, &model, "bindings/");
+            let mut outcomes: BTreeSet<String> = BTreeSet::new();
+            for perm in permutations(k) {
+                // reversed visit orders only matter where dependencies are visited at all
+                for rev in if mask == 0 { &[false, true][..] } else { &[false][..] } {
+                    let rev = *rev;
+                    hooks::set_visit_order(Some(Arc::new(move |n| {
+                        let mut v: Vec<usize> = (0..n).collect();
+                        if rev {
+                            v.reverse();
+                        }
+                        v
+                    })));
+                    let wd = scratch.fresh();
+                    std::env::set_current_dir(&wd).unwrap();
+                    hooks::reset_registry();
+                    let mut err = None;
+                    for &j in &perm {
+                        rep.transitions += 1;
+                        let r = if mask >> j & 1 == 1 {
+                            guarded(|| (uni[set[j]].info.export)())
+                        } else {
+                            guarded(|| (uni[set[j]].info.export_all)())
+                        };
+                        if let Err(e) = r {
+                            err = Some(e);
+                        }
                     }
-                    v
-                })));
-                let wd = scratch.fresh();
-                std::env::set_current_dir(&wd).unwrap();
-                hooks::reset_registry();
-                let mut err = None;
-                for &j in &perm {
-                    rep.transitions += 1;
-                    if let Err(e) = guarded(|| (uni[set[j]].info.export_all)()) {
-                        err = Some(e);
+                    hooks::set_visit_order(None);
+                    rep.evaluations += 1;
+                    let tree = files_of(&snapshot(&wd));
+                    let _ = std::fs::remove_dir_all(&wd);
+                    let names: Vec<String> = perm
+                        .iter()
+                        .map(|&j| format!("{}::{}", uni[set[j]].info.rust, if mask >> j & 1 == 1 { "export()" } else { "export_all()" }))
+                        .collect();
+                    if let Some(e) = err {
+                        rep.violation(json!({"check": "export-fails"}), json!({"order": names, "error": e}));
                     }
+                    if tree != expected {
+                        rep.violation(
+                            json!({"check": "root-order-tree-vs-reference"}),
+                            json!({"order": names, "reversed_visits": rev, "got": tree, "expected": expected}),
+                        );
+                    }
+                    outcomes.insert(serde_json::to_string(&tree).unwrap());
                 }
-                hooks::set_visit_order(None);
-                rep.evaluations += 1;
-                let tree = files_of(&snapshot(&wd));
-                let _ = std::fs::remove_dir_all(&wd);
-                let names: Vec<&str> = perm.iter().map(|&j| uni[set[j]].info.rust).collect();
-                if let Some(e) = err {
-                    rep.violation(json!({"check": "export-fails"}), json!({"order": names, "error": e}));
-                }
-                if tree != expected {
-                    rep.violation(
-                        json!({"check": "root-order-tree-vs-reference"}),
-                        json!({"order": names, "reversed_visits": rev, "got": tree, "expected": expected}),
-                    );
-                }
-                outcomes.insert(serde_json::to_string(&tree).unwrap());
+            }
+            rep.states += outcomes.len() as u64;
+            if outcomes.len() != 1 {
+                rep.violation(
+                    json!({"check": "root-order-changes-output"}),
+                    json!({"set": set.iter().map(|&t| uni[t].info.rust).collect::<Vec<_>>(), "entry_mask": mask, "distinct_outcomes": outcomes.len()}),
+                );
             }
         }
-        rep.states += outcomes.len() as u64;
         rep.count("root_sets", 1);
-        if outcomes.len() != 1 {
-            rep.violation(
-                json!({"check": "root-order-changes-output"}),
-                json!({"set": set.iter().map(|&t| uni[t].info.rust).collect::<Vec<_>>(), "distinct_outcomes": outcomes.len()}),
-            );
-        }
         rep.distinct.insert(format!("roots{set:?}"));
     }
     drop(scratch);
